@@ -108,3 +108,20 @@ package p2p
 //@ func (*P2P).AddPeer
 //@   callsite (*p2p.PeerSet).Add requires[authenticated] info.Address != nil && connection.Address != nil && info.Address.PublicKey == connection.Address.PublicKey && newPeer.PeerInfo == info && newPeer.conn == connection
 //@   callsite AddForce requires[authenticated] info.Address != nil && connection.Address != nil && info.Address.PublicKey == connection.Address.PublicKey && newPeer.PeerInfo == info && newPeer.conn == connection
+
+// ---- C18: the receive loop hands EVERY data packet to its stream ---------------------------------------------------
+// A message arrives as consecutive packets; the stream reassembles them. The loop may stop (connection error, unknown
+// stream, over-limit message) but it never goes on to the next wire message after silently skipping a data packet of a
+// known stream - skipping one packet of a message would deliver the rest as a truncated message or glue it to the next
+// one. Stated per iteration that continues: a heartbeat was handled, or the packet went through handlePacket (the
+// assembler grew by exactly the packet's bytes, or - on the end-of-message packet - was emptied after delivery).
+// (reading the next wire message fills byte buffers and builds a NEW message object: it does not touch the streams -
+// ASSUMED frame, it goes through the connection, protobuf and anypb; a heartbeat only answers on the wire)
+//@ func (*MultiConn).waitForAndHandleWireBytes
+//@   trusted
+//@   modifies elems(uint8), Envelope.*, ghost(mutexHeld)
+//@ func (*MultiConn).handleHeartbeatPacket
+//@   trusted
+//@   modifies elems(uint8), ghost(mutexHeld)
+//@ func (*MultiConn).startReceiveService
+//@   loop 1 iterensures[nodrop] typeis(msg, *Packet) && dyn(msg, *Packet).StreamId != heartbeatTopic ==> (let pk = dyn(msg, *Packet) in let st = stream in (pk.Eof ? len(st.msgAssembler) == 0 : len(st.msgAssembler) == athead(len(st.msgAssembler)) + len(pk.Bytes)))
